@@ -7,13 +7,14 @@ import ALV.Lemmas.C17Close
 import ALV.Lemmas.C17Chunks
 import ALV.Lemmas.C17Locks
 import ALV.Lemmas.C17Shutdown
+import ALV.Lemmas.C17Paused
 import ALV.Common.Audit
 
 namespace ALV.Props.C17
 open ALV.C17
 
 /-- schedules are written as lists of numbers: 0 = control script, n+1 = player n -/
-def mkSchedN (l : List Nat) : List Tid := l.map fun n => if n = 0 then Tid.main else Tid.player (n - 1)
+def mkSched (l : List Nat) : List Tid := l.map fun n => if n = 0 then Tid.main else Tid.player (n - 1)
 
 /-- **C17.1 delivered_prefix** — whatever the schedule and the control history, what a device
 stream has received is a prefix of `chunks(audio)` (in order, nothing duplicated, nothing
@@ -214,7 +215,7 @@ theorem steps_bounded_explicit (cfg : Cfg) (script : List Cmd) (sched : List Tid
   unfold stepBound at e; omega
 
 /-- non-vacuity: a schedule of 30 steps that is executed to its end (the bound is 52) -/
-example : let sched := mkSchedN ([0,0,0,0,0,0,0,0,0,0,0,0,1,1,1,1,0,0,0] ++ [1,1,1,1,1,1,0,0,0,0,0])
+example : let sched := mkSched ([0,0,0,0,0,0,0,0,0,0,0,0,1,1,1,1,0,0,0] ++ [1,1,1,1,1,1,0,0,0,0,0])
     (runSched ⟨false, true, 2⟩ (init [.play [101], .ctl .pause 0, .close]) sched).2 = [] ∧
     sched.length = 30 ∧ stepBound ⟨false, true, 2⟩ [.play [101], .ctl .pause 0, .close] = 52 := by
   decide
@@ -271,7 +272,7 @@ theorem close_returns_fixed (cfg : Cfg) (script : List Cmd) (s : State) (hf : cf
 
 /-- non-vacuity: `play ; pause ; close` under the schedule on which the code as it was deadlocks -/
 example : (runSched ⟨false, true, 2⟩ (init [.play [101], .ctl .pause 0, .close])
-    (mkSchedN ([0,0,0,0,0,0,0,0,0,0,0,0,1,1,1,1,0,0,0] ++ [1,1,1,1,1,1,0,0,0,0,0]))).1.mpc = .done :=
+    (mkSched ([0,0,0,0,0,0,0,0,0,0,0,0,1,1,1,1,0,0,0] ++ [1,1,1,1,1,1,0,0,0,0,0]))).1.mpc = .done :=
   close_returns_fixed _ _ _ rfl rfl (by simp) (reach_runSched _ Reach.init) (by decide)
 
 /-- **C17.11 close_returns_no_pause** — for scripts without `pause` calls (both variants of
@@ -289,7 +290,7 @@ theorem close_returns_no_pause (cfg : Cfg) (script : List Cmd) (s : State) (hn :
 /-- non-vacuity: two players, `stop` of one, `join` of the other, `wait=True`, code as it was -/
 example : allDone (runSched ⟨true, false, 1⟩
       (init [.play [101, 102], .play [201], .ctl .stop 0, .join 1, .close])
-      (mkSchedN [0,0,0,0,0,1,0,0,0,1,1,1,0,0,1,2,2,2,0,0,0,2,2,2,0,1,1,2,2,1,0,0,1,1,0,0,0,0])).1 = true :=
+      (mkSched [0,0,0,0,0,1,0,0,0,1,1,1,0,0,1,2,2,2,0,0,0,2,2,2,0,1,1,2,2,1,0,0,1,1,0,0,0,0])).1 = true :=
   close_returns_no_pause _ _ _ (by intro i h; simp at h) (reach_runSched _ Reach.init) (by decide)
 
 /-- **C17.12 close_returns_wait** — the `wait=True` clause, repaired `stop()` (it holds for
@@ -308,6 +309,24 @@ theorem close_returns_wait (cfg : Cfg) (script : List Cmd) (s : State) (hf : cfg
     · rcases gc_reach hf hu hr (by rw [hm]; rfl) i p hp with h | h
       · rw [hgo] at h; cases h
       · rw [hpc] at h; cases h
+
+/-- **C17.12b close_returns_wait_checked** — the hypothesis of `close_returns_wait` as a decidable
+check of the script alone: the `go` events are written by the control script only, so whether a
+player is paused at the first `close` is a function of the script (`closeUnpaused`: interpret
+play / pause / play / stop over one flag per player created so far; at the first `close` every
+flag is set). -/
+theorem close_returns_wait_checked (cfg : Cfg) (script : List Cmd) (s : State)
+    (hf : cfg.fixed = true) (hc : closeUnpaused cfg script = true) (hj : ∀ i, Cmd.join i ∉ script)
+    (hr : Reach cfg script s) (ht : terminal cfg s = true) : s.mpc = .done :=
+  close_returns_wait cfg script s hf (unpaused_of_check hc) hj hr ht
+
+/-- non-vacuity: `wait=True`, a player paused and resumed before `close`; and the check rejects
+the script of known finding D10b -/
+example : (runSched ⟨true, true, 2⟩ (init [.play [101, 102, 103], .ctl .pause 0, .ctl .resume 0, .close])
+    (mkSched [0,0,0,0,0,1,0,0,0,1,1,1,0,0,0,1,1,1,0,0,0,1,1,1,0,1,1,1,0,0,0,0,0])).1.mpc = .done :=
+  close_returns_wait_checked _ _ _ rfl (by decide) (by simp) (reach_runSched _ Reach.init) (by decide)
+
+example : closeUnpaused ⟨true, true, 2⟩ [.play [101], .ctl .pause 0, .close] = false := by decide
 
 /-- **C17.13 shutdown** — once the control script has finished in a terminal state and the script
 contained a `close`: that `close` has returned, every device stream is closed, `_threads` is
@@ -342,7 +361,7 @@ theorem shutdown_fixed (cfg : Cfg) (script : List Cmd) (hf : cfg.fixed = true)
 
 /-- non-vacuity of `shutdown_fixed`: a maximal run with a paused player -/
 example : let s := (runSched ⟨false, true, 2⟩ (init [.play [101], .ctl .pause 0, .close])
-      (mkSchedN ([0,0,0,0,0,0,0,0,0,0,0,0,1,1,1,1,0,0,0] ++ [1,1,1,1,1,1,0,0,0,0,0]))).1
+      (mkSched ([0,0,0,0,0,0,0,0,0,0,0,0,1,1,1,1,0,0,0] ++ [1,1,1,1,1,1,0,0,0,0,0]))).1
     (terminal ⟨false, true, 2⟩ s = true ∧ Ev.closeOk [false] 0 ∈ s.log ∧ noneAlive s = true) := by
   decide
 
@@ -388,9 +407,28 @@ theorem shutdown_wait (cfg : Cfg) (script : List Cmd) (hf : cfg.fixed = true)
   · have hd := close_returns_wait cfg script _ hf hu hj hr ht
     exact ⟨hd, after_done hr ht hd hc⟩
 
-/-! ### the deadlock of the code as it is (D10) -/
+/-- … with the hypothesis as the decidable check of the script -/
+theorem shutdown_wait_checked (cfg : Cfg) (script : List Cmd) (hf : cfg.fixed = true)
+    (hu : closeUnpaused cfg script = true) (hj : ∀ i, Cmd.join i ∉ script) (hc : Cmd.close ∈ script)
+    (sched : List Tid) (hrun : (runSched cfg (init script) sched).2 = []) :
+    sched.length ≤ stepBound cfg script ∧
+    (terminal cfg (runSched cfg (init script) sched).1 = true →
+      (runSched cfg (init script) sched).1.mpc = .done ∧
+      (∃ al n, Ev.closeOk al n ∈ (runSched cfg (init script) sched).1.log) ∧
+      closedAfter (runSched cfg (init script) sched).1 = true ∧
+      noneAlive (runSched cfg (init script) sched).1 = true ∧
+      (runSched cfg (init script) sched).1.terminated = 1) :=
+  shutdown_wait cfg script hf (unpaused_of_check hu) hj hc sched hrun
 
-def mkSched (l : List Nat) : List Tid := l.map fun n => if n = 0 then Tid.main else Tid.player (n - 1)
+/-- non-vacuity of `shutdown_wait_checked` (`wait=True`, pause and resume before `close`) -/
+example : let s := (runSched ⟨true, true, 2⟩
+      (init [.play [101, 102, 103], .ctl .pause 0, .ctl .resume 0, .close])
+      (mkSched [0,0,0,0,0,1,0,0,0,1,1,1,0,0,0,1,1,1,0,0,0,1,1,1,0,1,1,1,0,0,0,0,0])).1
+    (terminal ⟨true, true, 2⟩ s = true ∧ Ev.closeOk [false] 0 ∈ s.log ∧ noneAlive s = true ∧
+      (s.players.map (·.written)) = [[[101, 102], [103, 0]]]) := by
+  decide
+
+/-! ### the deadlock of the code as it is (D10) -/
 
 /-- `close()` is blocked for ever: the control script is inside `close` (at `thread.join()`), the
 player is blocked in `go.wait()`, nobody can move -/
@@ -412,6 +450,13 @@ theorem deadlock_pause_close :
 theorem deadlock_pause_close_wait :
     StuckInClose ⟨true, false, 2⟩
       (runSched ⟨true, false, 2⟩ (init [.play [101], .ctl .pause 0, .close])
+        (mkSched [0,0,0,0,0,0,0,0,0,0,0,0,1,1,1,1])).1 := by decide
+
+/-- … and the repaired `stop()` does not change that (`wait=True` never calls `stop()`): known
+finding D10b stays.  `close_returns_wait` states the exact hypothesis this script violates. -/
+theorem deadlock_pause_close_wait_fixed :
+    StuckInClose ⟨true, true, 2⟩
+      (runSched ⟨true, true, 2⟩ (init [.play [101], .ctl .pause 0, .close])
         (mkSched [0,0,0,0,0,0,0,0,0,0,0,0,1,1,1,1])).1 := by decide
 
 /-- **C17.6b** the player need not be paused when `close` starts: `pause ; play ; close` deadlocks
